@@ -12,7 +12,8 @@ def points(fnode):
     """Enumerate mutation points as (kind, index) in AST walk order (docstrings/annotations excluded)."""
     pts = []
     # parameter defaults are not part of the body a contract speaks about (the contract quantifies over every argument value)
-    in_defaults = {id(x) for d in fnode.args.defaults + [k for k in fnode.args.kw_defaults if k is not None] for x in ast.walk(d)}
+    # (nor are decorators: e.g. the size of an lru_cache)
+    in_defaults = {id(x) for d in fnode.args.defaults + [k for k in fnode.args.kw_defaults if k is not None] + fnode.decorator_list for x in ast.walk(d)}
     for i, n in enumerate(ast.walk(fnode)):
         if id(n) in in_defaults:
             continue
